@@ -291,7 +291,7 @@ def classes(case):
 
 SUBS = [
     Sub("histories", check, gen=lambda tier: histories(), nontrivial=nontrivial, classes=classes,
-        n={"quick": 400, "thorough": 4000},
+        n={"quick": 800, "thorough": 6000},
         essential=["object-reused-across-models", "domain:mixed", "domain:float-ranges", "domain:int-ranges",
                    "domain:elements", "gra:pre-existing-attribute", "gra:gra-fresh-no-domain", "gra:gra-domain-none"]
         + ["op:" + o for o in READ_ONLY]),
